@@ -35,6 +35,17 @@ Definition scalar_decode (r : N) (bs : list N) : option N :=
     let v := be_val bs in if v <? r then Some v else None
   else None.
 
+(** [Deserial for Scalar] (ed25519_instance.rs): 32 bytes little-endian,
+    [Scalar::from_canonical_bytes] is [None] iff the value is >= l; [Serial] writes the
+    32 little-endian bytes. *)
+Fixpoint to_le (n : nat) (x : N) : list N :=
+  match n with O => [] | S n' => x mod 256 :: to_le n' (x / 256) end.
+Definition scalar_encode_le (x : N) : list N := to_le 32 x.
+Definition scalar_decode_le (r : N) (bs : list N) : option N :=
+  if Nat.eqb (length bs) 32 then
+    let v := le_val bs in if v <? r then Some v else None
+  else None.
+
 (** [scalar_from_bytes]: limb [k] is [u64::from_le_bytes] of the [k]-th 8-byte chunk
     (zero padded; missing chunks leave the limb 0), the last limb is masked with
     [u64::MAX >> num_bits_to_remove]. *)
